@@ -3,6 +3,19 @@
 // Contracts for the deductive checker in /verif (comment-only; compiled only with -tags verif).
 package merge
 
+// colsChanged is true exactly when some layer adds or removes a column (then rows that are equal in every layer still
+// have to be resolved cell by cell, and layers are not de-duplicated by row sum).
+//@ func NewRowResolver
+//@   props C05
+//@   loop-candidates
+//@   requires cd != nil && len(cd.Added) == len(cd.Removed) && len(cd.Added) <= 255
+//@   ensures [C05] result != nil && forall(l, 0, len(cd.Added), len(cd.Added[l]) > 0 || len(cd.Removed[l]) > 0 ==> result.colsChanged)
+//@   ensures [C05] result.colsChanged ==> exists(l, 0, len(cd.Added), len(cd.Added[l]) > 0 || len(cd.Removed[l]) > 0)
+//@   loop 1 invariant 0 <= layer && layer <= nLayers && nLayers == len(cd.Added)
+//@   loop 1 invariant [C05] forall(l, 0, layer, len(cd.Added[l]) > 0 || len(cd.Removed[l]) > 0 ==> colsChanged)
+//@   loop 1 invariant [C05] colsChanged ==> exists(l, 0, layer, len(cd.Added[l]) > 0 || len(cd.Removed[l]) > 0)
+//@   loop 1 decreases nLayers - layer
+
 // getRow: the row of m in one layer (-1: base), rearranged into the merged column layout; nil iff m has no row there.
 //@ func (*RowResolver).getRow
 //@   props C05
